@@ -139,7 +139,12 @@ def realise_hdd(exts, rng, work):
     start = 0
     for i, e in enumerate(exts):
         vf, host = _extent_file(e, i, rng)
-        fn = f"disk.{i}.{'hds' if e['type'] == 'HDS' else 'hdd'}"
+        # image file names are taken as the descriptor spells them: blanks at either end, names that differ only in such a blank,
+        # unicode, characters that are escaped in XML
+        ext_ = "hds" if e["type"] == "HDS" else "hdd"
+        fn = rng.choice([f"disk.{i}.{ext_}", f"disk.{i}.{ext_}", f"disk.{ext_}" + " " * i, " " * i + f"disk.{ext_}", f"dïsk ✓ {i}.{ext_}", f"a&b <{i}>.{ext_}", f"disk {i} .{ext_} "])
+        if fn in files:
+            fn = f"disk.{i}.{ext_}"
         files[fn] = vf
         hosts.append(host)
         end = start + e["n"] * GRAIN
